@@ -50,11 +50,12 @@ for j in jobs:
             get = ns['getsubarray']
         for k in range(j['n']):
             s = np.asarray(get(k))
-            subs.append({'shape': list(s.shape), 'dtype': s.dtype.str, 'hex': np.ascontiguousarray(s).tobytes().hex()})
+            subs.append({'shape': list(s.shape), 'dtype': s.dtype.str,
+                         'hex': np.ascontiguousarray(s).astype(s.dtype.newbyteorder('<')).tobytes().hex()})
         r['subs'] = subs
         if j['n']:
             sa = np.asarray(ns['sa'])
-            r['sa'] = {'shape': list(sa.shape), 'hex': np.ascontiguousarray(sa).tobytes().hex()}
+            r['sa'] = {'shape': list(sa.shape), 'hex': np.ascontiguousarray(sa).astype(sa.dtype.newbyteorder('<')).tobytes().hex()}
         ns.clear()
     except Exception as e:
         r['error'] = '%s: %s' % (type(e).__name__, str(e)[:200])
@@ -65,6 +66,12 @@ for j in jobs:
     out.append(r)
 json.dump(out, open(sys.argv[2], 'w'))
 '''
+
+
+def _lehex(a):
+    """values as little-endian bytes: a wrong byte-order label must show as wrong values"""
+    a = np.ascontiguousarray(a)
+    return a.astype(a.dtype.newbyteorder('<')).tobytes().hex()
 
 
 def run(tier, seed):
@@ -206,7 +213,7 @@ def run(tier, seed):
                 continue
             for k, it_ in enumerate(items):
                 g = r['subs'][k]
-                if tuple(g['shape']) != it_.shape or g['hex'] != np.ascontiguousarray(it_).tobytes().hex():
+                if tuple(g['shape']) != it_.shape or g['hex'] != _lehex(it_):
                     run.violation('C07|exec|%s|subarray' % lang, {**desc, 'k': k, 'expected_shape': it_.shape,
                                                                 'got_shape': g['shape'], 'code': code}, {'kind': 'ragged-exec'})
                     break
@@ -218,7 +225,7 @@ def run(tier, seed):
                 else:
                     k = int(m.group(2))
                     okk = fe.ORD.get(m.group(1)) == k and k < len(items) and \
-                        r['sa']['hex'] == np.ascontiguousarray(items[k]).tobytes().hex()
+                        r['sa']['hex'] == _lehex(items[k])
                     if not okk:
                         run.violation('C07|exec|%s|example|n=%d' % (lang, min(len(items), 3)),
                                       {**desc, 'problem': 'the example does not bind the subarray it announces',
